@@ -188,11 +188,16 @@ class RunConfig(object):
         if self.dtype == 'int' and (
                 self.norm != 'raw' or np.any(ref.X != np.round(ref.X))):
             self.dtype = 'float64'
+        # optional `cell_set`: only these cells may enter the statistics
+        # (chosen per reference by the caller so that all runs of one
+        # reference are asked for the same labelling)
+        self.cell_set = force.get('cell_set')
 
     def as_dict(self):
         return {'files': self.files, 'encodings': self.encodings,
                 'rows': self.rows, 'n_proc': self.n_proc, 'norm': self.norm,
-                'dtype': self.dtype}
+                'dtype': self.dtype,
+                'cell_set': getattr(self, 'cell_set', None)}
 
 
 # ---------------------------------------------------------------------------
@@ -311,7 +316,8 @@ def run_precompute(ref, cfg, d, frontend='list', subset=None):
                         data_path_list=list(paths), taxonomy_tree=tt,
                         output_path=out_path, rows_at_a_time=cfg.rows,
                         normalization=cfg.norm, tmp_dir=tmp,
-                        n_processors=cfg.n_proc)
+                        n_processors=cfg.n_proc,
+                        cell_set=cell_set_of(cfg))
                 res['ok'] = True
             except Exception as e:   # noqa
                 res['err'] = classify(e)
@@ -334,7 +340,8 @@ def census(ref, cfg, label_of=None, subset=None):
     thresholds are decided on the exact CPM (raw input) / the stored value
     (log2CPM input); (must, may) = counts that must / may be included
     """
-    label_of = label_of or (lambda nm: ref.label[nm])
+    eff = effective_label(ref, cfg)
+    label_of = label_of or (lambda nm: eff[nm])
     in_files = set(j for f in cfg.files for j in f)
     np_dtype = {'float64': np.float64, 'float32': np.float32,
                 'int': np.int64}[cfg.dtype]
@@ -464,7 +471,9 @@ def model_values(ref, cfg):
 def model_precompute(ctx, ref, cfg, ids, subset=None):
     V = model_values(ref, cfg)
     tree = ref.tree_with_cells(subset)
-    l2c = [[ids.leaf[l], [ids.cell[c] for c in tree[ref.leaf_level][l]]]
+    cs = cell_set_of(cfg)
+    l2c = [[ids.leaf[l], [ids.cell[c] for c in tree[ref.leaf_level][l]
+                          if cs is None or c in cs]]
            for l in tree[ref.leaf_level]]
     tbl = ctx.model('stats.nameToRow', {'leafToCells': l2c})
     if 'err' in tbl:
@@ -576,6 +585,20 @@ def ref_from_detail(d):
     return ref, cfg
 
 
+def cell_set_of(cfg):
+    cs = getattr(cfg, 'cell_set', None)
+    return None if cs is None else set(cs)
+
+
+def effective_label(ref, cfg):
+    """the labelling the run is asked for: tree labels, restricted to
+    `cell_set` when one is given"""
+    cs = cell_set_of(cfg)
+    if cs is None:
+        return dict(ref.label)
+    return {nm: (l if nm in cs else None) for nm, l in ref.label.items()}
+
+
 def tol_of(cfg):
     return 2e-5 if cfg.dtype == 'float32' else 1e-9
 
@@ -604,8 +627,10 @@ def check_run(ctx, ref, cfg, frontend='list', baseline=None):
         ctx.violation('C09/precompute/scratch-left',
                       'precompute leaves files in tmp_dir: %r'
                       % res['tmp_left'][:3], detail)
+    eff = effective_label(ref, cfg)
     labelled_in_files = any(
-        ref.label[ref.names[j]] is not None for f in cfg.files for j in f)
+        eff[ref.names[j]] is not None for f in cfg.files for j in f)
+    ctx.count('cell_set:%s' % (cell_set_of(cfg) is not None))
     if not res['ok']:
         if labelled_in_files:
             ctx.violation('C09/precompute/crash/' + res['err'].split(':')[0],
@@ -667,7 +692,7 @@ def check_run(ctx, ref, cfg, frontend='list', baseline=None):
                                 'precompute_summary_stats_from_h5ad_list_and_tree'),
                     found_input=False)
         # the work split actually used
-        tree_cells = set(nm for nm in ref.names if ref.label[nm] is not None)
+        tree_cells = set(nm for nm in ref.names if eff[nm] is not None)
         ml = model_loads(ctx, ref, cfg, tree_cells)
         impl_loads = res['loads']
         if impl_loads is not None and None not in impl_loads:
@@ -747,6 +772,7 @@ def check_truncate(ctx, ref, cfg):
     ids = Ids(ref)
     anc = ref.ancestors()
     tol = tol_of(cfg)
+    eff = effective_label(ref, cfg)
     with pipeline.workdir('c09t_') as d:
         res = run_precompute(ref, cfg, d)
         if not res['ok']:
@@ -785,8 +811,8 @@ def check_truncate(ctx, ref, cfg):
                                     for l in ref.leaves))
             want = census(
                 ref, cfg,
-                label_of=lambda nm: (None if ref.label[nm] is None else
-                                     anc[ref.label[nm]][new_leaf_level]))
+                label_of=lambda nm: (None if eff[nm] is None else
+                                     anc[eff[nm]][new_leaf_level]))
             probs = check_against_census(got, want, new_leaves, ref.genes,
                                          tol, ref.n_genes)
             if not probs:
@@ -968,6 +994,7 @@ def check_read(ctx, ref, cfg):
     ids = Ids(ref)
     anc = ref.ancestors()
     tol = tol_of(cfg)
+    eff = effective_label(ref, cfg)
     detail = ref_detail(ref, cfg, {'kind': 'read'})
     with pipeline.workdir('c09r_') as d:
         res = run_precompute(ref, cfg, d)
@@ -993,8 +1020,8 @@ def check_read(ctx, ref, cfg):
                 continue
             g = got['cluster_stats'][key]
             members = [j for j, nm in enumerate(ref.names)
-                       if j in in_files and ref.label[nm] is not None
-                       and anc[ref.label[nm]][lvl] == node]
+                       if j in in_files and eff[nm] is not None
+                       and anc[eff[nm]][lvl] == node]
             n = len(members)
             if int(g['n_cells']) != n:
                 probs.append(('n_cells', key, int(g['n_cells']), n))
@@ -1082,8 +1109,12 @@ def run(ctx):
         ref = Reference(rng, small=(i % 3 == 0))
         baseline = None
         cfgs = []
+        cell_set = None
+        if rng.random() < 0.25:
+            k = rng.randint(1, len(ref.names))
+            cell_set = sorted(rng.sample(ref.names, k)) + ['not_a_cell']
         for k in range(n_splits):
-            cfg = RunConfig(rng, ref)
+            cfg = RunConfig(rng, ref, force={'cell_set': cell_set})
             cfgs.append(cfg)
             stats = check_run(ctx, ref, cfg, baseline=baseline)
             if stats is not None and baseline is None:
